@@ -631,7 +631,11 @@ def run_raws(ctx, impl, cases, res):
         res.count("raw:" + (k["exc"] if k["kind"] == "exc" else "ok"))
         res.count("family:raw:" + c.get("family", "raw"))
         res.case(("raw", c), nontrivial=True)
-        judge(res, {"family": "raw", "case": c}, im, mo, None)
+        sp = o.get("spec")
+        if sp is not None:
+            sp = {w: adapt(mode, v) for w, v in sp.items()}
+            res.count("raw:with-spec")
+        judge(res, {"family": "raw", "case": c}, im, mo, sp)
     return len(lines)
 
 
@@ -678,7 +682,10 @@ def run_io_raws(ctx, impl, cases, res):
         res.count("io_raw:" + (o["model"]["exc"] if o["model"]["kind"] == "exc" else "ok"))
         res.count("family:io_raw:" + c.get("family", "raw"))
         res.case(("io_raw", c), nontrivial=True)
-        judge(res, {"family": "io_raw", "case": c}, im, adapt(mode, o["model"]), None)
+        sp = o.get("spec") if not c["file"].get("read_err") else None
+        if sp is not None:
+            res.count("io_raw:with-spec")
+        judge(res, {"family": "io_raw", "case": c}, im, adapt(mode, o["model"]), adapt(mode, sp))
     return len(cases)
 
 
